@@ -73,6 +73,12 @@ pub fn exhaustive() -> (Vec<Case>, Vec<String>) {
                         n += 1;
                         cases.push(point(env, kw, class, pos, kind, n % 30));
                         labels.push(format!("{env}/{kw}/{class}/{pos}/{kind}"));
+                        // every seventh point again with a tag number at or past a machine width (X.680 sets no upper limit)
+                        if n % 7 == 3 {
+                            let big = [255u64, 256, 65535, 65536, 2147483648, 4294967295, 4294967296, 4294967299, 1 << 40][(n / 7 % 9) as usize];
+                            cases.push(point(env, kw, class, pos, kind, big));
+                            labels.push(format!("{env}/{kw}/{class}/{pos}/{kind}/number-{big}"));
+                        }
                     }
                 }
             }
